@@ -1,93 +1,9 @@
 (* driver.ml — runs the extracted Coq models / spec predicates, one case per input line.
    line:   <fn> <hexarg>*        (an empty byte string is written "-")
-   output: one line per case:    ok <hex>* | panic <site> | fuel | none | err <msg>            *)
-module M = Model
-
-let byte_of_int (i : int) : M.byte = Obj.magic i
-let int_of_byte (b : M.byte) : int = Obj.magic b
-
-(* N -> int *)
-let rec int_of_pos = function
-  | M.XH -> 1
-  | M.XO p -> 2 * int_of_pos p
-  | M.XI p -> 2 * int_of_pos p + 1
-let int_of_n = function M.N0 -> 0 | M.Npos p -> int_of_pos p
-let rec pos_of_int i = if i = 1 then M.XH else if i land 1 = 0 then M.XO (pos_of_int (i lsr 1)) else M.XI (pos_of_int (i lsr 1))
-let n_of_int i = if i = 0 then M.N0 else M.Npos (pos_of_int i)
-
-let self_check () =
-  for i = 0 to 255 do
-    if int_of_n (M.to_N (byte_of_int i)) <> i then (prerr_endline "driver: byte mapping self-check failed"; exit 3)
-  done
-
-let hexval c = match c with
-  | '0'..'9' -> Char.code c - 48
-  | 'a'..'f' -> Char.code c - 87
-  | 'A'..'F' -> Char.code c - 55
-  | _ -> failwith "bad hex"
-
-let bytes_of_hex (s : string) : M.byte list =
-  if s = "-" then [] else begin
-    let n = String.length s / 2 in
-    let rec go i acc = if i < 0 then acc else
-        go (i - 1) (byte_of_int (hexval s.[2*i] * 16 + hexval s.[2*i+1]) :: acc) in
-    go (n - 1) []
-  end
-
-let hex_of_bytes (l : M.byte list) : string =
-  if l = [] then "-" else begin
-    let b = Buffer.create 64 in
-    List.iter (fun x -> Buffer.add_string b (Printf.sprintf "%02x" (int_of_byte x))) l;
-    Buffer.contents b
-  end
-
-let ocaml_string_of_coq (s : M.string) : string =
-  let b = Buffer.create 16 in
-  let rec go = function
-    | M.EmptyString -> ()
-    | M.String (a, r) ->
-      (match a with M.Ascii (b0,b1,b2,b3,b4,b5,b6,b7) ->
-         let v = (if b0 then 1 else 0) lor (if b1 then 2 else 0) lor (if b2 then 4 else 0) lor (if b3 then 8 else 0)
-                 lor (if b4 then 16 else 0) lor (if b5 then 32 else 0) lor (if b6 then 64 else 0) lor (if b7 then 128 else 0) in
-         Buffer.add_char b (Char.chr v));
-      go r in
-  go s; Buffer.contents b
-
-let pr_res (f : 'a -> string) (r : 'a M.res) : string =
-  match r with
-  | M.Ok a -> "ok " ^ f a
-  | M.Panic s -> "panic " ^ ocaml_string_of_coq s
-  | M.OutOfFuel -> "fuel"
-
-let pr_opt f = function Some a -> "ok " ^ f a | None -> "none"
-let pr_bool b = if b then "ok 1" else "ok 0"
-
-let rec pairs = function
-  | a :: v :: r -> (bytes_of_hex a, bytes_of_hex v) :: pairs r
-  | [] -> []
-  | _ -> failwith "odd attribute list"
-
-let dispatch (fn : string) (args : string list) : string =
-  let a i = bytes_of_hex (List.nth args i) in
-  match fn with
-  | "escape" -> pr_res hex_of_bytes (M.escape (a 0))
-  | "escape_href" -> pr_res hex_of_bytes (M.escape_href (a 0))
-  | "write_opening_tag" -> pr_res hex_of_bytes (M.write_opening_tag (a 0) (pairs (List.tl args)))
-  | "html_unescape" -> pr_opt hex_of_bytes (M.html_unescape (a 0))
-  | "href_decode" -> pr_opt hex_of_bytes (M.href_decode (a 0))
-  | "href_wf" -> pr_bool (M.href_wf (a 0))
-  | "no_pct_hex" -> pr_bool (M.no_pct_hex (a 0))
-  | "utf8_valid" -> pr_bool (M.utf8_valid (a 0))
-  | "lex_start_tag" ->
-    (match M.lex_start_tag (a 0) with
-     | Some ((tag, attrs), rest) ->
-       "ok " ^ hex_of_bytes tag ^ " " ^ hex_of_bytes rest ^
-       String.concat "" (List.map (fun (n, v) -> " " ^ hex_of_bytes n ^ " " ^ hex_of_bytes v) attrs)
-     | None -> "none")
-  | _ -> "err unknown-fn"
-
+   output: one line per case:    ok <hex>* | panic <site> | fuel | none | err <msg>
+   Functions are registered by the d_*.ml component files (Dcore.register). *)
 let () =
-  self_check ();
+  Dcore.self_check ();
   (try
      while true do
        let line = input_line stdin in
@@ -95,9 +11,13 @@ let () =
        match toks with
        | [] -> print_endline "err empty"
        | fn :: args ->
-         let out = (try dispatch fn args with
-             | Stack_overflow -> "err stack_overflow"
-             | e -> "err " ^ Printexc.to_string e) in
+         let out = (try
+                      (match Hashtbl.find_opt Dcore.registry fn with
+                       | Some f -> f args
+                       | None -> "err unknown-fn")
+                    with
+                    | Stack_overflow -> "err stack_overflow"
+                    | e -> "err " ^ Printexc.to_string e) in
          print_endline out
      done
    with End_of_file -> ())
